@@ -38,7 +38,7 @@ def one(name, tier, extra):
         if r.returncode != 0:
             return name, {"error": "patch does not apply: " + (r.stdout + r.stderr)[-300:]}
         for c in checks:
-            p = subprocess.run([os.path.join(HERE, "check"), c, "--tier", tier, "--no-evidence"], env=dict(os.environ, VERIF_REPO=scratch),
+            p = subprocess.run([os.path.join(HERE, "check"), c, "--tier", tier, "--no-evidence"], env=dict(os.environ, VERIF_REPO=scratch, BCV_REPLAY_DIR=os.path.join(scratch, "replays")),
                                capture_output=True, text=True)
             mons = sorted({ln.strip().split("]")[0][1:] for ln in p.stderr.splitlines() if ln.strip().startswith("[")})
             out[c] = {"exit": p.returncode, "violations": sum(ln.startswith("VIOLATION") for ln in p.stdout.splitlines()), "monitors": mons[:8],
